@@ -115,11 +115,38 @@ def run(ctx, broken):
             ctx.violation("impl:concurrent-calls", {"kind": "implementation-vs-property", "why": "concurrent prove/verify on shared keys "
                           "returned something else than the sequential calls", "request": l[:400], "impl_output": o[:300]})
             break
+    # (5) process history: the proof for a label must not depend on which OTHER labels the process used before (labels that
+    #     share a long prefix, differ only by trailing NUL bytes, or are prefixes of each other; process-global caches)
+    pre = b"zz-verif/dusk-network/transfer-circuit/v3/"          # 42 bytes: longer than any fixed-size cache key prefix
+    labels = [pre + b"send-to-contract", pre + b"withdraw-from-contract", pre[:32], pre[:32] + b"\x00", pre[:33], pre[:31],
+              pre + b"send-to-contract\x00", b"", b"\x00"]
+    hdraws = [draw_hex(rng) for _ in range(14)]
+    hprog = simple_program(rng, 12)
+    hlines = [prove_line(srs, 32, lb, hdraws, 3, hprog) for lb in labels]
+    alone = [run_bin(ctx.harness_bin(), [l])[0] for l in hlines]
+    seqs = [list(range(len(labels))), list(reversed(range(len(labels))))]
+    if ctx.tier != "quick":
+        seqs += [[(i * 4 + 3) % len(labels) for i in range(len(labels))], [1, 0, 3, 2, 5, 4, 7, 6, 8]]
+    n_hist = 0
+    for sq in seqs:
+        outs_h = run_bin(ctx.harness_bin(), [hlines[i] for i in sq])
+        for pos, (i, o) in enumerate(zip(sq, outs_h)):
+            n_hist += 1
+            if o != alone[i] or not o.startswith("proof="):
+                ctx.violation("impl:process-history", {"kind": "implementation-vs-property", "why": "the proof (or keys) for a label depends on "
+                              "the labels the same process used before: not a function of circuit, label, parameters and RNG bytes",
+                              "label_hex": labels[i].hex(), "labels_used_before": [labels[j].hex() for j in sq[:pos]],
+                              "request": hlines[i][:400], "outputs": {"fresh-process": alone[i][:300], "after-other-labels": o[:300]}})
+                break
+    dist["process-history"] = n_hist
+    if len(set(alone)) != len(alone):
+        ctx.violation("impl:labels-collide", {"kind": "implementation-vs-property", "why": "two different labels give byte-identical "
+                      "keys and proofs", "labels": [l.hex() for l in labels]})
     st = r.report()
-    st["evaluations"] += n_runs + len(conc)
+    st["evaluations"] += n_runs + len(conc) + n_hist
     st["schedule_distribution"] = dist
     st["rule"] = ("circuits of ~%s gates (domains on both sides of the 2^12 FFT switch): real prover bytes == Lean specification prover "
                   "(sequential) for the sizes up to 700 gates; bytes under RAYON_NUM_THREADS in %s (fresh process each, so fresh hash seeds) "
                   "== the 1-thread reference; std build == alloc-only build (separate crate harness-alloc); %d-thread concurrent "
-                  "prove+verify on shared keys == sequential." % (sizes, pools, 16))
+                  "prove+verify on shared keys == sequential; process history: %d labels sharing a 42-byte prefix / differing by trailing NULs / prefixes of each other proved in one process in several orders == each proved alone in a fresh process." % (sizes, pools, 16, 9))
     return st
